@@ -42,6 +42,7 @@ ALL_FEATURES = (
     "ips",
     "overlap",
     "abs_paths",
+    "zero_block",
 )
 # "big_incbin" (a >64 KiB contiguous block) is opt-in: callers add it explicitly with a low probability.
 
@@ -497,6 +498,10 @@ class Gen:
         text = "".join(rng.choice("ABCDEFGHIJ klmnop0123!?") for _ in range(rng.randrange(1, 12) if rng.random() < 0.85 else rng.randrange(30, 70)))
         if self.has_table and rng.random() < 0.5:
             text = "".join(rng.choice(self.table_chars) for _ in range(rng.randrange(1, 10)))
+            if rng.random() < 0.3:
+                # raw-byte escape inside the text
+                k = rng.randrange(0, len(text) + 1)
+                text = text[:k] + f"[0x{rng.randrange(256):02x}]" + text[k:]
             return stmt(f".text '{text}'")
         return stmt(f".ascii '{text}'")
 
@@ -847,7 +852,16 @@ class Gen:
             if (a & 0x7FFF) + k < 0:
                 k = 0
             root.append(stmt(f"*={a + k:#08x}", "stareq"))
-            root.append(stmt(".db " + ", ".join(self.lit(8) for _ in range(rng.randrange(2, 9)))))
+            if "zero_block" in f and rng.random() < 0.5:
+                root.append(stmt(".db " + ", ".join("0" for _ in range(rng.randrange(2, 9)))))  # all-zero bytes over earlier output
+            else:
+                root.append(stmt(".db " + ", ".join(self.lit(8) for _ in range(rng.randrange(2, 9)))))
+        if "zero_block" in f and not use_map:
+            # a block made of zero bytes only, above everything else the program writes (a writer must
+            # still write it: the flat image ends with it, and a patch must contain it)
+            zb = {"low": 0x0F, "low2": 0x8F, "high": 0xC7, "any": 0xC9}[self.mapping]
+            root.append(stmt(f"*={(zb << 16) | 0x9000:#08x}", "stareq"))
+            root.append(stmt(rng.choice([".db 0, 0, 0, 0", ".dw 0, 0", ".dl 0", ".db 0"])))
         if "big_incbin" in f and not use_map and self.mapping != "any":
             # one contiguous block of more than 64 KiB (spills over the following banks)
             # total length of the contiguous block (the blob plus an optional trailing byte): exact multiples
